@@ -571,6 +571,8 @@ def rule_fixed_columns_total(ctx: Ctx) -> RuleResult:
     hides = any(isinstance(n, ast.If) and isinstance(n.test, ast.Compare) and isinstance(n.test.ops[0], (ast.LtE, ast.Lt, ast.Eq)) and isinstance(n.test.comparators[0], ast.Constant) and n.test.comparators[0].value == 0 and any(isinstance(x, ast.Continue) for x in n.body) for n in rn.own_nodes())
     per_all = [b for b in pk.own_nodes() if isinstance(b, ast.BinOp) and isinstance(b.op, ast.Mult) and "dividechars" in ast.unparse(b) and "len(" in ast.unparse(b)]
     filtered = any(isinstance(g, (ast.GeneratorExp, ast.ListComp)) and any(any(isinstance(c, ast.Compare) and isinstance(c.ops[0], (ast.Gt, ast.GtE, ast.NotEq)) for c in ast.walk(i)) for gen in g.generators for i in gen.ifs) for g in pk.own_nodes())
+    # the same filter written as a statement: `if width > 0:` / `if width <= 0: continue` inside a loop of pack()
+    filtered = filtered or any(isinstance(n, ast.If) and isinstance(n.test, ast.Compare) and isinstance(n.test.comparators[0], ast.Constant) and n.test.comparators[0].value == 0 for n in pk.own_nodes())
     rr.inst("Columns.pack", True, {"render_hides_zero_width_columns": hides, "divider_times_column_count": [norm(b, 50) for b in per_all], "total_filtered_like_render": filtered})
     if hides and (per_all or not filtered):
         rr.add(finding("SIB", pk, per_all[0] if per_all else pk.node, "render() skips columns of width 0 (they take no divider either), pack() counts widths and dividers over all columns: with a hidden column the width pack(()) states is larger than the canvas render(()) returns", construct="pack counts a divider for hidden columns"))
@@ -653,6 +655,7 @@ _PD = "urwid/widget/padding.py"
 _FL = "urwid/widget/filler.py"
 _G = "urwid/widget/grid_flow.py"
 MUTANTS = [
+    Mut("twin-columns-pack-total-as-loop", "urwid/widget/columns.py", "Columns.pack", "        cols = sum(width + (self.dividechars if i < len(widths) - 1 else 0) for i, width in enumerate(widths) if width > 0)\n", "        cols = 0\n        for i, width in enumerate(widths):\n            if width > 0:\n                cols += width + (self.dividechars if i < len(widths) - 1 else 0)\n", twin=True),
     Mut("columns-pack-divider-per-column", "urwid/widget/columns.py", "Columns.pack", "        cols = sum(width + (self.dividechars if i < len(widths) - 1 else 0) for i, width in enumerate(widths) if width > 0)\n", "        cols = sum(widths) + self.dividechars * max(len(widths) - 1, 0)\n", "SIB|widget.columns.Columns.pack|pack counts a divider for hidden columns"),
     Mut("overlay-rows-relative-of-full-width", "urwid/widget/overlay.py", "Overlay.rows", "                width = max(int(maxwidth * self.width_amount / 100 + 0.5), (self.min_width or 0))", "                width = max(int(size[0] * self.width_amount / 100 + 0.5), (self.min_width or 0))", "SIB|widget.overlay.Overlay.rows|relative width taken from size[0], not net of the margins"),
     Mut("twin-overlay-rows-relative-inline", "urwid/widget/overlay.py", "Overlay.rows", "                width = max(int(maxwidth * self.width_amount / 100 + 0.5), (self.min_width or 0))", "                width = max(int(max(0, size[0] - (self.right or 0) - (self.left or 0)) * self.width_amount / 100 + 0.5), (self.min_width or 0))", twin=True),
